@@ -363,12 +363,34 @@ fn dies_in_child(prop: &dyn Prop, case: &Case, v: &Violation, tier: Tier) -> boo
         Ok(e) => e,
         Err(_) => return false,
     };
-    let st = Command::new(exe).arg("replay").arg(&path).stdout(Stdio::null()).stderr(Stdio::null()).status();
-    let _ = std::fs::remove_file(&path);
-    match st {
-        Ok(s) => s.code().is_none() || !matches!(s.code(), Some(0 | 1 | 2)),
+    // the candidate runs in a child with a deadline of its own: a child that neither ends nor dies within it is
+    // killed and counts as "still fails" (the violation being minimised is then a hang)
+    let deadline = match tier {
+        Tier::Quick => 40,
+        Tier::Thorough => 150,
+    };
+    let died = match Command::new(exe).arg("replay").arg(&path).stdout(Stdio::null()).stderr(Stdio::null()).spawn() {
+        Ok(mut child) => {
+            let t0 = Instant::now();
+            loop {
+                match child.try_wait() {
+                    Ok(Some(s)) => break s.code().is_none() || !matches!(s.code(), Some(0 | 1 | 2)),
+                    Ok(None) => {
+                        if t0.elapsed().as_secs() > deadline {
+                            let _ = child.kill();
+                            let _ = child.wait();
+                            break true;
+                        }
+                        std::thread::sleep(std::time::Duration::from_millis(20));
+                    }
+                    Err(_) => break false,
+                }
+            }
+        }
         Err(_) => false,
-    }
+    };
+    let _ = std::fs::remove_file(&path);
+    died
 }
 
 /// Shrinking for cases that kill the process: every candidate is replayed in a child
@@ -378,9 +400,15 @@ pub fn shrink_crash(prop: &dyn Prop, case: &Case, v: &Violation, tier: Tier, max
     }
     let mut cur = case.clone();
     let mut evals = 0;
+    // same wall-clock allowance as shrink_case: minimisation never decides a verdict
+    let t0 = Instant::now();
+    let allowance = match tier {
+        Tier::Quick => 90,
+        Tier::Thorough => 300,
+    };
     'outer: loop {
         for cand in prop.shrink(&cur) {
-            if evals >= max_evals {
+            if evals >= max_evals || t0.elapsed().as_secs() > allowance {
                 break 'outer;
             }
             evals += 1;
